@@ -149,7 +149,7 @@ def build(spec, filename, factory=None, hooks=None, lazy_all=False, create=True,
                 kw['reverse'] = ad['reverse']
                 if ad.get('cascade') is not None: kw['cascade_delete'] = ad['cascade']
                 in_pk = (not e.get('base')) and pk != 'auto' and n in pk
-                if (ad.get('lazy') or lazy_all) and not in_pk: kw['lazy'] = True
+                if (ad.get('lazy') or (lazy_all and lazy_all != 'scalars')) and not in_pk: kw['lazy'] = True
                 cls = orm.Required if ad.get('required') else orm.Optional
                 if in_pk and len(pk) == 1:
                     d[n] = orm.PrimaryKey(ad['target'], reverse=ad['reverse'])
